@@ -136,18 +136,27 @@ Theorem unicode_sane_from_tables : forall X,
   (forall c, 128 <= c -> x_ws X c = true -> x_alnum X c = false /\ x_alpha X c = false) -> UnicodeSane X.
 Proof. exact UnicodeSane_intro. Qed.
 
-(* FULL STATEMENT, not yet proved (see `partial` in lib/props.d/C07.py):
-   parse_render_file : forall X, UnicodeSane X -> forall items L,
-     WfItems X items -> WfLayout X L ->
-     (every stanza's query text q_i is accepted by the external as ONE pattern with full-match capture
-      index st_full_stanza_idx, contains no `{` outside strings/comments and does not begin with
-      attribute/global/inherit; the merged query source compiles; every scan regex is valid) ->
-     parse X (fuel_of (file_text L items)) (file_text L items)
-       = POk (file_of_items (file_loc L items)) (items_pats items).
-   The missing part is parse_into_file's loop over `global` / `inherit` / `attribute` / stanza items
-   (parse_global with its one-character quantifier, parse_shorthand, skip_query/parse_query);
-   everything below the items — the block of a stanza, every statement, every expression — is proved
-   above, and the whole is compared with the implementation on every run by the correspondence stream. *)
+(* ---- the round trip proper, for whole files.  `items` is the file in source order (globals with the
+   four quantifier forms and optional default, `inherit .name`, attribute shorthands, stanzas with their
+   query text); file_text is its rendering under layout L (a leading gap, then every item followed by
+   a gap), file_items_loc the same items with every location set to the position of the construct's
+   first character (global, shorthand: their NAME; stanza: the first character of its query) and the
+   scan arms numbered in order of appearance; file_of_items is the File that parse_into_file fills
+   (globals and stanzas in order, inherited names as a set, shorthands as a map by name).
+   Hypotheses about the externals (they are what tree-sitter decides, recorded per case by the
+   correspondence stream): queries_ok - tree-sitter accepts every stanza's query text (plus the
+   appended full-match capture) as ONE pattern and reports the capture index the AST carries;
+   x_merged - the concatenation of the accepted queries compiles; WfItem - the query text has no `{`
+   outside strings/comments and does not begin like a top-level keyword, every scan regex is valid.
+   Fuel: fuel_of text = S (length text). ---- *)
+Theorem parse_render_file : forall X tbl items L, UnicodeSane X ->
+  Forall (WfItem X tbl) items -> WfLayout X L ->
+  queries_ok X tbl (sub L 1) 0 (bytes (G L 0)) items ->
+  x_merged X (concat (map item_query_source items)) = Some true ->
+  let text := file_text tbl X L items in
+  parse X (fuel_of text) text =
+    POk (file_of_items (file_items_loc tbl X L items)) (concat (map (item_pats tbl) items)).
+Proof. exact parse_render_file_lemma. Qed.
 
 (* ---- non-vacuity ---- *)
 Definition ex_ext : ext :=
@@ -234,4 +243,29 @@ Proof.
   - repeat split; try discriminate; try reflexivity. constructor.
   - reflexivity.
   - vm_compute. lia.
+Qed.
+
+(* a whole file: global g? = "d"   inherit .sc   attribute sh = x => a = x, b   (identifier) @id { <ex_stmt> } *)
+Definition ex_items : list item :=
+  [IGlobal {| gl_name := [103]; gl_quant := QOpt; gl_default := Some [100]; gl_loc := (0, 0) |};
+   IGlobal {| gl_name := [108; 105; 115; 116; 95]; gl_quant := QOne; gl_default := None; gl_loc := (0, 0) |};
+   IInherit [115; 99];
+   IShorthand {| sh_name := [115; 104]; sh_var := [120]; sh_vloc := (0, 0);
+                 sh_attrs := [Attr [97] (EUnscoped [120] (0, 0)); Attr [98] ETrue]; sh_loc := (0, 0) |};
+   IStanza [40; 105; 100; 101; 110; 116; 105; 102; 105; 101; 114; 41; 32; 64; 105; 100; 32; 59; 32; 99; 10] {| st_stmts := [ex_stmt; SNode (VarU [109] (0, 0)) [] (0, 0)]; st_full_stanza_idx := 1;
+                    st_full_file_idx := 0; st_start := (0, 0) |}].
+Example ex_items_wf : Forall (WfItem ex_ext [[97; 43]]) ex_items.
+Proof.
+  repeat constructor; cbn; try discriminate; try reflexivity; auto.
+Qed.
+Example ex_file_roundtrip :
+  let text := file_text [[97; 43]] ex_ext ex_layout ex_items in
+  parse ex_ext (fuel_of text) text =
+    POk (file_of_items (file_items_loc [[97; 43]] ex_ext ex_layout ex_items)) [[97; 43]]
+  /\ (length text = 360)%nat.
+Proof.
+  cbv zeta. split; [|vm_compute; reflexivity].
+  apply (parse_render_file ex_ext [[97; 43]] ex_items ex_layout ex_ext_sane ex_items_wf ex_layout_wf).
+  - cbn [queries_ok ex_items]. repeat split. exists 1. split; reflexivity.
+  - reflexivity.
 Qed.
